@@ -1316,6 +1316,9 @@ def finalise(o):
 
 # ------------------------------------------------------------------ rendering as yaql text
 
+_QUOTE = [0]         # string literals of one expression alternate between 'a' and "a" (the same value)
+
+
 def lit(v):
     if v is None:
         return 'null'
@@ -1328,7 +1331,8 @@ def lit(v):
     if isinstance(v, float):
         return repr(v) if v >= 0 and repr(v)[0] != '-' else '(%r)' % v
     if isinstance(v, str):
-        if len(v) == 2 and '"' not in v and '\\' not in v:
+        _QUOTE[0] += 1
+        if _QUOTE[0] % 2 == 0 and '"' not in v and '\\' not in v:
             return '"' + v + '"'            # the other spelling of the same string
         return "'" + v.replace('\\', '\\\\').replace("'", "\\'") + "'"
     if isinstance(v, (tuple, list)):
@@ -1555,6 +1559,7 @@ def render_op(r, a):
 
 
 def render(ops, binder=None, root='$'):
+    _QUOTE[0] = 0
     r = root
     for a in ops:
         r = render_op(r, a)
